@@ -324,10 +324,10 @@ def enumerate_cases(tier: str, seed: int = 0):
     chunks = [[c] for c in EXTERNAL]
     for curve in ('BL', 'p2', 'sp', 'ed'):      # slowest first (load balance of the ordered pool map)
         bl = curve == 'BL'
-        nkeys = (4 if bl else 8) if thorough else (2 if bl else 4)
+        nkeys = (3 if bl else 8) if thorough else (2 if bl else 4)
         secrets = CC.secrets_of(curve, nkeys, seed)
         if bl:
-            msgs = MESSAGES[:5] if thorough else [MESSAGES[0], MESSAGES[2]]
+            msgs = [MESSAGES[0], MESSAGES[2], MESSAGES[4], MESSAGES[1]] if thorough else [MESSAGES[0], MESSAGES[2]]
         else:
             msgs = MESSAGES
         others = {c: CC.secrets_of(c, 1, seed)[0] for c in CC.CURVES}
